@@ -260,11 +260,6 @@ func cmdSweep(args []string) {
 	fmt.Printf("\ntotal %.1fs\n", time.Since(t0).Seconds())
 }
 
-func cmdCheck(args []string) int {
-	fmt.Fprintln(os.Stderr, "check: not implemented yet")
-	return 2
-}
-
 func workers() int {
 	n := runtime.NumCPU() / 2
 	if n < 1 {
